@@ -309,6 +309,9 @@ def main(argv=None):
                 "solver VC against the symbolic buffer length or a concrete bounds test against the exact-size destination objects")
     # the element decoder itself (C17's own obligations model it as "reads exactly the encoding"): its byte-level obligations from C09, for every byte string
     chk.include("C09", only=r"decode-memory|canonical")
+    # ... and the byte I/O of the field elements below it (BigInt::read/write_big_endian run for real on a 1-aligned buffer whose address is
+    # symbolic, so a word-wise fast path behind an address test is decided against that test): C02's Fq I/O obligations
+    chk.include("C02", only=r"more:Fq::(read|write)_big_endian|more:BigInt")
     # every C struct must have the size and alignment of the C++ object its wrapper casts it to (an under-aligned or undersized C object is an
     # out-of-bounds / misaligned access for a valid C caller): C19's layout and wrapper obligations
     chk.include("C19")
